@@ -32,6 +32,45 @@ def run_impl_history(window, byfreq, ops):
     return res
 
 
+def run_impl_lazy(window, byfreq, ops, gi):
+    """ops[gi] and ops[gi + 2] are the two halves of ONE segment() call on one text: its generator is started,
+    the first half consumed, ops[gi + 1] run completely, then the generator finished.  Same result shape as
+    run_impl_history (a generator suspended after its k-th yield has processed exactly k utterances)."""
+    m = puddle.Puddle(window=window, by_frequency=byfreq)
+    res = []
+
+    def snap():
+        return (dict(m._lexicon), dict(m._beginning), dict(m._ending))
+    try:
+        k = 0
+        while k < len(ops):
+            kind, text = ops[k]
+            if k == gi:
+                g = m.segment(list(text) + list(ops[gi + 2][1]), update_model=(kind == 1))
+                first = [next(g) for _ in range(len(text))]
+                res.append(('ok', first, snap()))
+                kind2, text2 = ops[gi + 1]
+                if kind2 == 0:
+                    m.train(list(text2))
+                    out2 = []
+                else:
+                    out2 = list(m.segment(list(text2), update_model=(kind2 == 1)))
+                res.append(('ok', out2, snap()))
+                res.append(('ok', list(g), snap()))
+                k += 3
+                continue
+            if kind == 0:
+                m.train(list(text))
+                out = []
+            else:
+                out = list(m.segment(list(text), update_model=(kind == 1)))
+            res.append(('ok', out, snap()))
+            k += 1
+    except Exception as e:  # noqa
+        res.append(('raise', type(e).__name__))
+    return res
+
+
 def dec_history(w):
     res = []
     for r in w:
@@ -189,6 +228,22 @@ def main():
         cases.append(make_case(c['window'], c['by_frequency'], [(k, t) for k, t in c['ops']], 'corpus'))
     n = 15000 if ck.thorough else 2500
     alphas = [['a', 'b'], ['a', 'b', 'c'], ['a', 'b', 'ab', 'ba'], ['uː', 'dʒ', 'ʌ', 'ŋ'], ['U', 'B', '_', 'a']]
+    # lazily consumed segment() generators interleaved with other calls on the same model: the generator keeps
+    # the mode it was asked for (frozen / updating) and reads the model as it is when each utterance is taken;
+    # it is the history [first half, the other call, second half]
+    for k in range(1500 if ck.thorough else 250):
+        alpha = alphas[k % len(alphas)]
+        lexi = gens.planted_lexicon(rng, alpha, nwords=rng.randint(2, 4))
+        window, byfreq = rng.choice([1, 2, 2, 3]), rng.random() < 0.5
+        pre = [(rng.choice([0, 1]), rand_text(rng, alpha, lexi, rng.randint(1, 4)))]
+        gk = rng.choice([1, 2, 2])
+        gtext = rand_text(rng, alpha, lexi, rng.randint(2, 5))
+        cut = rng.randint(1, len(gtext) - 1)
+        other = (rng.choice([0, 0, 1, 2]), rand_text(rng, alpha, lexi, rng.randint(0, 3)))
+        ops = pre + [(gk, gtext[:cut]), other, (gk, gtext[cut:])]
+        c = make_case(window, byfreq, ops, 'lazy-interleaving')
+        c['impl'] = (lambda window=window, byfreq=byfreq, ops=ops: run_impl_lazy(window, byfreq, ops, 1))
+        cases.append(c)
     for k in range(n):
         alpha = alphas[k % len(alphas)]
         lexi = gens.planted_lexicon(rng, alpha, nwords=rng.randint(2, 4))
